@@ -68,7 +68,7 @@ def mode_rows(ctx, v, modes, scenarios, prefix):
 def handover(ctx, v, prefix):
     """Scripts for the real daemons with manager_switchover on: behaviours of Daemon.tla printed by TLC plus the
     hand-written boundary scripts of the driver; every activation is judged by DaemonRows.tla."""
-    nsim = 40 if ctx.quick else 1500
+    nsim = 40 if ctx.quick else 6000
     r = vlib.tlc_must(ctx, vlib.tlc(ctx, "DaemonGen", cfg="DaemonGen.cfg", workers=1, timeout=3000, simulate="num=%d" % nsim,
                                     depth=30, seed=ctx.seed), "DaemonGen")
     seen, beh = set(), []
